@@ -29,6 +29,9 @@ def env_maps():
     out.append([["HTTPS_PROXY", "configured"], ["HTTP_PROXY", ""]])
     for v in T:
         out.append([["K", v]])
+    # values of 40 kB (beyond any "small argument" threshold), one of them with line breaks inside and at the end
+    out.append([["K", "x" * 40000]])
+    out.append([["K", "{\n" + "  \"k\": 1,\n" * 4000 + "}\r\n"], ["AFTER", "a"]])
     for v1, v2 in itertools.product(T, repeat=2):
         out.append([["K", v1], ["K2", v2]])
     return out
@@ -329,7 +332,7 @@ def run(ctx):
     res.cov("evaluations", len(cfgs) + len(pairs) + pk)
     res.cov("distinct_nontrivial", len(cfgs) - 2)
     res.cov("distinct_outcomes", len(shapes))
-    res.cov("rule", "configurations = each field varied over its full domain against defaults (builder over 9 strings; env maps of <=2 keys x 10 value strings incl. '', leading dashes, spaces, '=', Unicode, shell metacharacters, and keys that are also set (differently) in the test process's own environment (proxy variables, DOCKER_HOST, K); buildpack lists of length <=3 plus references spelled like paths that exist below the crate root; relative/absolute app dir, also one below the run's temp dir; preprocessor; entrypoint None+10 strings; commands of <=2 elements; all port subsets of {80,8080,65535}; <=2 bind mounts over 4 synthetic paths plus existing sources: a directory, a symlink to it and a redundant spelling of it, up to 3 at once); build+rebuild pairs incl. every pair of preprocessor settings {none, A, B} with the app content pack saw judged per build and, in thorough, all pairs of fields over thinned domains; each run through the real TestRunner with stand-in CLIs; plus 5 sets of on-the-fly packaged references (current crate, workspace buildpacks, a composite, overlapping dependency closures) x both expectations in a really compiled generated workspace; the logged argv is decoded with reference parsers and compared with the configuration; non-trivial = non-default configurations")
+    res.cov("rule", "configurations = each field varied over its full domain against defaults (builder over 9 strings; env maps of <=2 keys x 10 value strings (plus two 40 kB values, one multi-line) incl. '', leading dashes, spaces, '=', Unicode, shell metacharacters, and keys that are also set (differently) in the test process's own environment (proxy variables, DOCKER_HOST, K); buildpack lists of length <=3 plus references spelled like paths that exist below the crate root; relative/absolute app dir, also one below the run's temp dir; preprocessor; entrypoint None+10 strings; commands of <=2 elements; all port subsets of {80,8080,65535}; <=2 bind mounts over 4 synthetic paths plus existing sources: a directory, a symlink to it and a redundant spelling of it, up to 3 at once); build+rebuild pairs incl. every pair of preprocessor settings {none, A, B} with the app content pack saw judged per build and, in thorough, all pairs of fields over thinned domains; each run through the real TestRunner with stand-in CLIs; plus 5 sets of on-the-fly packaged references (current crate, workspace buildpacks, a composite, overlapping dependency closures) x both expectations in a really compiled generated workspace; the logged argv is decoded with reference parsers and compared with the configuration; non-trivial = non-default configurations")
     res.cov("exhaustive", True)
     for i in (3, len(cfgs) // 2, len(cfgs) - 1):
         if 0 <= i < len(cfgs):
